@@ -60,6 +60,11 @@ SYSTEMS = {
     "big": {"network": {"species": [{"label": "A", "density": {"a": 150, "b": 0}, "D": 0.01}, {"label": "B", "density": 120, "D": 0.02}],
                          "reactions": [{"eq": "A -> B", "k+": 0.02}], "environments": ["a", "b"]},
              "space": {"w": 2, "h": 1, "d": 1, "cell_env": [0, 1]}},
+    # three cells x two species (not square: a transposed layout cannot hide), with empty entries that must stay empty
+    "tri": {"network": {"species": [{"label": "A", "D": 0.5}, {"label": "B", "D": 0.25}],
+                         "reactions": [{"eq": "A -> B", "k+": 0.5}]},
+             "space": {"w": 3, "h": 1, "d": 1},
+             "state": {"value": [40, 0, 0, 0, 7, 0], "units": "molecule"}},
     # reversible with two environments and a chemostat
     "rev": {"network": {"species": [{"label": "A", "density": {"a": 6, "b": 2}, "D": 2},
                                      {"label": "B", "density": 4, "D": {"a": 1, "b": 0}, "chstt": {"b": True}}],
@@ -222,6 +227,10 @@ def compute_ref(engine, script, kind):
     r.x0ok = True
     if mode == "none" or (mode == "auto" and kind == "euler"):
         r.x0ok = bool(same_bits(x0, X[0]))
+    else:
+        # every processing mode leaves an empty entry empty (Poisson(0) = 0, redistribution places nothing where nothing was):
+        # the t = 0 record is laid out like the state, species by species, cell by cell
+        r.x0ok = bool(all(X[0][k] == 0 for k in range(len(x0)) if x0[k] == 0))
     engine.finalize()
     return r
 
